@@ -188,9 +188,17 @@ fn rewrite(r: &mut Rng, forms: &mut Vec<SX>, files: &mut Vec<(String, String)>, 
                 return None;
             }
             let name = format!("zt{n}");
-            set_item(forms, fi, ii, l(vec![a("t!"), a(name.clone()), a("yes")]));
+            // the argument the guards compare is written literally, or named through a variable
+            let via_var = r.chance(250);
+            let arg = if via_var { a(format!("$zy{n}")) } else { a("yes") };
+            set_item(forms, fi, ii, l(vec![a("t!"), a(name.clone()), arg]));
             let ti = *ntop;
             *ntop += 1;
+            if via_var {
+                forms.insert(ti, l(vec![a("defvar"), a(format!("zy{n}")), a("yes")]));
+                *ntop += 1;
+            }
+            let ti = if via_var { ti + 1 } else { ti };
             forms.insert(
                 ti,
                 l(vec![
@@ -201,7 +209,7 @@ fn rewrite(r: &mut Rng, forms: &mut Vec<SX>, files: &mut Vec<(String, String)>, 
                     l(vec![a("if-not-equal"), a("$p"), a("yes"), a("XX")]),
                 ]),
             );
-            Some("template-if-equal")
+            Some(if via_var { "template-if-equal-with-variable-argument" } else { "template-if-equal" })
         }
         5 => {
             // a top-level form -> included file
